@@ -2,7 +2,8 @@
    (the six QOperation.func_calc_proj_... methods): values None / True / False, truthiness, `or` / `and` (which return an OPERAND, not a bool),
    `not`, conditional expressions, comparison with a constant.  Definitions only.  Used by the text regenerated on every run
    by gen/c04_py2coq.py and by coq/gen/C04_Equiv.v. *)
-From Coq Require Import Bool ZArith.
+From Coq Require Import Bool ZArith List.
+From QV.Core Require Import OF.
 
 Inductive pyval : Type := PNone | PBool (b : bool).
 Definition truthy (v : pyval) : bool := match v with PNone => false | PBool b => b end.
@@ -21,3 +22,18 @@ Definition resolve (req : option bool) (own : bool) : bool := match req with Non
    and only for the LAST hs, the first dim^2 entries (its first row) are dropped *)
 Definition mp_ineq_delete (flag : bool) (i m : Z) : bool := flag && (i =? m - 1)%Z.
 Definition mp_ineq_slice (dim : Z) : Z * Z := (0%Z, (dim * dim)%Z).
+
+(* ---- in-place index / slice assignments of constants, as the equality projections of State and Gate perform them on a COPY of
+   their operand:  x[i] = c, x[lo:hi] = c  (W1; x[i] is the slice [i, i+1));  x[r][c] = .., x[r][lo:hi] = ..  (W2; hi = None: to the end) *)
+Inductive wval : Type := VZero | VOne | VInvSqrtDim.                               (* 0, 1, 1 / np.sqrt(dim) *)
+Inductive write : Type := W1 (lo : Z) (hi : option Z) (v : wval) | W2 (r lo : Z) (hi : option Z) (v : wval).
+Section C04Writes.
+Context (F : OF).
+Definition wv (sd : F) (v : wval) : F := match v with VZero => c0 F | VOne => c1 F | VInvSqrtDim => kdiv F (c1 F) sd end.
+Definition in_slice (lo : Z) (hi : option Z) (i : nat) : bool :=
+  (lo <=? Z.of_nat i)%Z && match hi with None => true | Some h => (Z.of_nat i <? h)%Z end.
+Definition interp1 (sd : F) (ws : list write) (x : nat -> F) : nat -> F :=
+  fold_left (fun acc w => match w with W1 lo hi v => (fun i => if in_slice lo hi i then wv sd v else acc i) | W2 _ _ _ _ => acc end) ws x.
+Definition interp2 (sd : F) (ws : list write) (H : nat -> nat -> F) : nat -> nat -> F :=
+  fold_left (fun acc w => match w with W2 r lo hi v => (fun a b => if (Z.of_nat a =? r)%Z && in_slice lo hi b then wv sd v else acc a b) | W1 _ _ _ => acc end) ws H.
+End C04Writes.
